@@ -1,730 +1,13 @@
 (* C01: the constructed field satisfies the Boozer-coordinate identities of props/C01_spec.v order by order.
-
-   Structure: facts about the object state S are extracted from the stages (models of the programs regenerated
-   from init_axis, r1_diagnostics, _residual, calculate_r2, calculate_r3, all agreeing with S on attributes);
-   each claimed coefficient [r^k, harmonic m] of a residual is computed from the formal double series
-   (QSC.Series, by [cbv]) as an explicit polynomial in the attribute values at a grid point and shown to vanish
-   with [field]/[ring] after substituting the facts. *)
-From Coq Require Import Reals String List Lra Lia QArith Qreals FunctionalExtensionality.
-From QSC Require Import Expr Shallow Series.
-From QSCGen Require Import G_init_axis G_r1_diagnostics G_residual G_calculate_r2 G_calculate_r3.
-From QSCProps Require Import C04_spec C01_spec.
-Open Scope R_scope.
-Open Scope string_scope.
-
-(* rewrite every attribute read S "s.x" into V "s.x" (inverse of Shallow.to_state) *)
-Ltac from_state Hst :=
-  repeat match goal with
-         | |- context [?S0 (String ?a ?b)] =>
-             lazymatch type of Hst with
-             | stage _ _ S0 ?V =>
-                 let x := constr:(String a b) in
-                 let t := eval vm_compute in (is_attr x) in
-                 lazymatch t with
-                 | true => rewrite <- (st_agree _ _ _ _ Hst x (eq_refl true))
-                 end
-             end
-         end.
-
-Lemma Q2R_0 : Q2R (0#1) = 0.
-Proof. unfold Q2R; simpl; lra. Qed.
-
-Lemma sq1_cases (x : R) : x * x = 1 -> x = 1 \/ x = -1.
-Proof.
-  intros H. assert (H0 : (x - 1) * (x + 1) = 0) by (ring_simplify; rewrite <- H; ring).
-  apply Rmult_integral in H0. destruct H0; [left|right]; lra.
-Qed.
-
-
-(* ------------------------------------------------------------------------------------------ *)
-(* derivations: quotient rule *)
-Section Deriv.
-  Context {I : Type} (O : ops I) (HD : derivation O).
-  Lemma D_inv (f : I -> R) : (forall k, f k <> 0) -> forall i, o_D O (fun k => / f k) i = - o_D O f i / (f i * f i).
-  Proof.
-    intros Hf i.
-    assert (H1 : o_D O (fun k => f k * / f k) i = 0).
-    { replace (fun k => f k * / f k) with (fun _ : I => 1).
-      - apply (D_const O HD).
-      - apply functional_extensionality; intros k. field. apply Hf. }
-    rewrite (D_mul O HD f (fun k => / f k) i) in H1.
-    assert (H2 : o_D O (fun k => / f k) i = - (o_D O f i * / f i) / f i).
-    { apply (Rmult_eq_reg_l (f i)); [|apply Hf].
-      transitivity (- (o_D O f i * / f i)); [lra | field; apply Hf]. }
-    rewrite H2. field. apply Hf.
-  Qed.
-End Deriv.
-
-(* ------------------------------------------------------------------------------------------ *)
-(* Facts extracted from the stages, as equations on the object state *)
-Section Facts.
-  Context {I : Type} (O : ops I) (S : string -> I -> R).
-  Definition Dv (f : I -> R) (i : I) : R := o_D O f i / S "s.d_varphi_d_phi" i.
-
-  Record axis_facts : Prop := {
-    ax_X1c : S "s.X1c" = fun i => S "s.etabar" i / S "s.curvature" i;
-    ax_G0 : S "s.G0" = fun i => S "s.sG" i * S "s.abs_G0_over_B0" i * S "s.B0" i;
-    ax_E : S "s.etabar_squared_over_curvature_squared"
-           = fun i => S "s.etabar" i * S "s.etabar" i / (S "s.curvature" i * S "s.curvature" i)
-  }.
-  Record r1_facts : Prop := {
-    r1_Y1s : S "s.Y1s" = fun i => S "s.sG" i * S "s.spsi" i * S "s.curvature" i / S "s.etabar" i;
-    r1_Y1c : S "s.Y1c" = fun i => S "s.sG" i * S "s.spsi" i * S "s.curvature" i * S "s.sigma" i / S "s.etabar" i;
-    r1_dX1c : forall i, S "s.d_X1c_d_varphi" i = Dv (S "s.X1c") i;
-    r1_dY1s : forall i, S "s.d_Y1s_d_varphi" i = Dv (S "s.Y1s") i;
-    r1_dY1c : forall i, S "s.d_Y1c_d_varphi" i = Dv (S "s.Y1c") i
-  }.
-
-  Lemma axis_facts_of_stage VA : stage O init_axis S VA -> axis_facts.
-  Proof.
-    intros HA. pose proof (st_fix _ _ _ _ HA) as HV.
-    constructor.
-    - from_state HA. unfold_fixes O init_axis HV ("s.X1c" :: "s.curvature" :: nil)%list. reflexivity.
-    - from_state HA. unfold_fixes O init_axis HV ("s.G0" :: "G0" :: "s.abs_G0_over_B0" :: nil)%list. reflexivity.
-    - from_state HA.
-      unfold_fixes O init_axis HV ("s.etabar_squared_over_curvature_squared" :: "s.curvature" :: nil)%list. reflexivity.
-  Qed.
-
-  Ltac prove_r1 P H1 :=
-    let HV := fresh "HV" in
-    pose proof (st_fix _ _ _ _ H1) as HV;
-    constructor;
-    [ from_state H1; unfold_fix O P HV "s.Y1s"; reflexivity
-    | from_state H1; unfold_fix O P HV "s.Y1c"; reflexivity
-    | intros i; unfold Dv; from_state H1; unfold_fix O P HV "s.d_X1c_d_varphi"; reflexivity
-    | intros i; unfold Dv; from_state H1; unfold_fix O P HV "s.d_Y1s_d_varphi"; reflexivity
-    | intros i; unfold Dv; from_state H1; unfold_fix O P HV "s.d_Y1c_d_varphi"; reflexivity ].
-  Lemma r1_facts_of_stage_h0 V1 : stage O r1_diagnostics_h0 S V1 -> r1_facts.
-  Proof. intros H1. prove_r1 r1_diagnostics_h0 H1. Qed.
-  Lemma r1_facts_of_stage_hN V1 : stage O r1_diagnostics_hN S V1 -> r1_facts.
-  Proof. intros H1. prove_r1 r1_diagnostics_hN H1. Qed.
-End Facts.
-
-(* compute a coefficient of a residual series as an explicit real expression in the atoms *)
-Ltac compute_coef := cbv -[Rplus Rmult Ropp Rinv Rminus Rdiv IZR pow o_D Dv sigma_residual].
-
-(* ------------------------------------------------------------------------------------------ *)
-(* First order *)
-Section R1.
-  Context {I : Type} (O : ops I) (S : string -> I -> R).
-  Hypothesis HD : derivation O.
-  Hypothesis HA : axis_facts S.
-  Hypothesis HR : r1_facts O S.
-  Hypothesis Hadm : admissible S.
-  Let HL : linear O := der_lin O HD.
-
-  Notation kap := (S "s.curvature"). Notation eta := (S "s.etabar"). Notation sig := (S "s.sigma").
-  Notation sG := (S "s.sG"). Notation spsi := (S "s.spsi"). Notation lp := (S "s.abs_G0_over_B0").
-  Notation B0 := (S "s.B0").
-
-  Ltac sign_cases i :=
-    let HsG := fresh "HsG" in let Hsp := fresh "Hsp" in
-    destruct (sq1_cases _ (adm_sG S Hadm i)) as [HsG|HsG];
-    destruct (sq1_cases _ (adm_spsi S Hadm i)) as [Hsp|Hsp];
-    rewrite ?HsG, ?Hsp.
-  Ltac nonzero i :=
-    pose proof (adm_eta S Hadm i); pose proof (adm_kappa S Hadm i);
-    pose proof (Rgt_not_eq _ _ (adm_B0 S Hadm i)); pose proof (Rgt_not_eq _ _ (adm_lp S Hadm i));
-    pose proof (adm_dvp S Hadm i).
-
-  (* varphi-derivatives of the first-order shape, by Leibniz, in terms of d kappa and d sigma *)
-  Lemma dX1c_formula i : S "s.d_X1c_d_varphi" i = - eta i * Dv O S kap i / (kap i * kap i).
-  Proof.
-    rewrite (r1_dX1c O S HR). unfold Dv. rewrite (ax_X1c S HA).
-    destruct (adm_eta_const S Hadm) as [ce He]. rewrite He. unfold Rdiv at 2.
-    rewrite (D_scal O HL ce (fun k => / kap k) i), (D_inv O HD kap (adm_kappa S Hadm) i).
-    nonzero i. field. split; assumption.
-  Qed.
-  Lemma dY1s_formula i : S "s.d_Y1s_d_varphi" i = sG i * spsi i * Dv O S kap i / eta i.
-  Proof.
-    rewrite (r1_dY1s O S HR). unfold Dv. rewrite (r1_Y1s O S HR).
-    destruct (adm_eta_const S Hadm) as [ce He]. destruct (adm_sG_const S Hadm) as [cg Hg].
-    destruct (adm_spsi_const S Hadm) as [cp Hp]. pose proof (adm_eta S Hadm i) as Hne. rewrite He, Hg, Hp in *.
-    unfold Rdiv at 2.
-    rewrite (D_scal_r O HL (/ ce) (fun k => cg * cp * kap k) i), (D_scal O HL (cg * cp) kap i).
-    nonzero i. field. split; assumption.
-  Qed.
-  Lemma dY1c_formula i :
-    S "s.d_Y1c_d_varphi" i = sG i * spsi i * (Dv O S kap i * sig i + kap i * Dv O S sig i) / eta i.
-  Proof.
-    rewrite (r1_dY1c O S HR). unfold Dv. rewrite (r1_Y1c O S HR).
-    destruct (adm_eta_const S Hadm) as [ce He]. destruct (adm_sG_const S Hadm) as [cg Hg].
-    destruct (adm_spsi_const S Hadm) as [cp Hp]. pose proof (adm_eta S Hadm i) as Hne. rewrite He, Hg, Hp in *.
-    unfold Rdiv at 2.
-    rewrite (D_scal_r O HL (/ ce) (fun k => cg * cp * kap k * sig k) i).
-    rewrite (D_mul O HD (fun k => cg * cp * kap k) sig i), (D_scal O HL (cg * cp) kap i).
-    nonzero i. field. split; assumption.
-  Qed.
-
-  Section Claims.
-    Variable i : I.
-    Variable b : atoms.
-
-    Ltac subst_r1 :=
-      rewrite ?dX1c_formula, ?dY1s_formula, ?dY1c_formula;
-      rewrite ?(ax_G0 S HA), ?(ax_X1c S HA), ?(r1_Y1s O S HR), ?(r1_Y1c O S HR); cbv beta.
-
-    Theorem r1_claims : claims_r1 (with_first_order S i b).
-    Proof.
-      destruct b. unfold claims_r1, with_first_order. nonzero i.
-      repeat split; compute_coef; repeat constructor; cbn [fst snd cv]; try reflexivity;
-        subst_r1; sign_cases i; field; repeat split; assumption.
-    Qed.
-
-    (* the averaged O(r^2) condition IS the sigma equation (no use of the Newton solve here) *)
-    Theorem pol3_avg_identity :
-      tavg (pol (with_first_order S i b) 3%nat)
-      = spsi i * B0 i * (kap i * kap i) / (2 * (eta i * eta i)) * sigma_residual O S i.
-    Proof.
-      destruct b. unfold with_first_order, sigma_residual. nonzero i.
-      compute_coef. subst_r1. unfold Dv. sign_cases i; field; repeat split; assumption.
-    Qed.
-    Theorem crl1_identity :
-      tcos (crl (with_first_order S i b) 1%nat) 0
-      = spsi i * B0 i * (kap i * kap i) / (eta i * eta i) * sigma_residual O S i.
-    Proof.
-      destruct b. unfold with_first_order, sigma_residual. nonzero i.
-      compute_coef. subst_r1. unfold Dv. sign_cases i; field; repeat split; assumption.
-    Qed.
-    Theorem r1_avg_claims : sigma_residual O S i = 0 -> claims_r1_avg (with_first_order S i b).
-    Proof.
-      intros Hs. split.
-      - rewrite pol3_avg_identity, Hs. ring.
-      - pose proof crl1_identity as Hc. rewrite Hs, Rmult_0_r in Hc. revert Hc.
-        destruct b. unfold with_first_order. nonzero i.
-        compute_coef. intros Hc.
-        repeat constructor; cbn [fst snd cv]; try reflexivity; try exact Hc;
-          subst_r1; sign_cases i; field; repeat split; assumption.
-    Qed.
-  End Claims.
-
-  (* the Newton oracle: at the returned solution the residual program vanishes, hence sigma_residual = 0 *)
-  Section Sigma.
-    Variable VR : string -> I -> R.
-    Hypothesis HRs : stage O residual S VR.
-    Hypothesis Hsol : sigma_solved O S VR.
-    Lemma sigma_residual_zero i : sigma_residual O S i = 0.
-    Proof.
-      destruct Hsol as (Hxs & Hxi & Hr & Hpin & HiN).
-      pose proof (st_fix _ _ _ _ HRs) as HV.
-      pose proof (Hr i) as Hri. revert Hri.
-      unfold_fixes O residual HV ("r" :: "sigma#2" :: "sigma" :: "iota" :: nil)%list.
-      rewrite Hxs, Hxi. to_state HRs.
-      replace (o_pin O (S "s.sigma") (S "s.sigma0")) with (S "s.sigma")
-        by (apply functional_extensionality; intros k; symmetry; apply Hpin).
-      rewrite <- (HiN i). qsimp. rewrite (ax_E S HA). cbv beta. intros Hri.
-      unfold sigma_residual. rewrite <- Hri. nonzero i. field. repeat split; assumption.
-    Qed.
-  End Sigma.
-End R1.
-
-(* ------------------------------------------------------------------------------------------ *)
-(* Second order: facts extracted from calculate_r2 *)
-Section Facts2.
-  Context {I : Type} (O : ops I) (S : string -> I -> R).
-  Notation kap := (S "s.curvature"). Notation eta := (S "s.etabar"). Notation sig := (S "s.sigma").
-  Notation sG := (S "s.sG"). Notation spsi := (S "s.spsi"). Notation tau := (S "s.torsion").
-  Notation B0 := (S "s.B0"). Notation iotaN := (S "s.iotaN").
-  Notation X1c := (S "s.X1c"). Notation Y1c := (S "s.Y1c"). Notation Y1s := (S "s.Y1s").
-  (* the code's local B0_over_abs_G0 and abs_G0_over_B0 *)
-  Definition bl (i : I) : R := S "s.B0" i / Rabs (S "s.G0" i).
-  Definition ll (i : I) : R := 1 / bl i.
-  Definition q_s i := - iotaN i * X1c i - Y1s i * tau i * ll i.
-  Definition q_c i := Dv O S X1c i - Y1c i * tau i * ll i.
-  Definition r_s i := Dv O S Y1s i - iotaN i * Y1c i.
-  Definition r_c i := Dv O S Y1c i + iotaN i * Y1s i + X1c i * tau i * ll i.
-
-  Record r2_facts : Prop := {
-    r2_Z20 : forall i, S "s.Z20" i = - bl i / 8 * Dv O S (fun k => X1c k * X1c k + Y1c k * Y1c k + Y1s k * Y1s k) i;
-    r2_Z2s : forall i, S "s.Z2s" i = - bl i / 8 * (Dv O S (fun k => 2 * Y1s k * Y1c k) i
-                                   - 2 * iotaN i * (X1c i * X1c i + Y1c i * Y1c i - Y1s i * Y1s i));
-    r2_Z2c : forall i, S "s.Z2c" i = - bl i / 8 * (Dv O S (fun k => X1c k * X1c k + Y1c k * Y1c k - Y1s k * Y1s k) i
-                                   + 2 * iotaN i * (2 * Y1s i * Y1c i));
-    r2_X2s : forall i, S "s.X2s" i = bl i * (S "s.d_Z2s_d_varphi" i - 2 * iotaN i * S "s.Z2c" i
-                 + bl i * (ll i * ll i * S "s.B2s" i / B0 i + (q_c i * q_s i + r_c i * r_s i) / 2)) / kap i;
-    r2_X2c : forall i, S "s.X2c" i = bl i * (S "s.d_Z2c_d_varphi" i + 2 * iotaN i * S "s.Z2s" i
-                 - bl i * (- ll i * ll i * S "s.B2c" i / B0 i + ll i * ll i * eta i * eta i / 2
-                           - (q_c i * q_c i - q_s i * q_s i + r_c i * r_c i - r_s i * r_s i) / 4)) / kap i;
-    r2_Y2s : forall i, S "s.Y2s" i = alg_Y2s S "s.X20" i;
-    r2_Y2c : forall i, S "s.Y2c" i = alg_Y2c S "s.X20" "s.Y20" i;
-    r2_B20 : forall i, S "s.B20" i = B0 i * (kap i * S "s.X20" i - bl i * S "s.d_Z20_d_varphi" i + eta i * eta i / 2
-                 - mu0R * S "s.p2" i / (B0 i * B0 i)
-                 - bl i * bl i / 4 * (q_c i * q_c i + q_s i * q_s i + r_c i * r_c i + r_s i * r_s i));
-    r2_G2 : forall i, S "s.G2" i = - mu0R * S "s.p2" i * S "s.G0" i / (B0 i * B0 i) - S "s.iota" i * S "s.I2" i;
-    r2_dX20 : forall i, S "s.d_X20_d_varphi" i = Dv O S (S "s.X20") i;
-    r2_dX2s : forall i, S "s.d_X2s_d_varphi" i = Dv O S (S "s.X2s") i;
-    r2_dX2c : forall i, S "s.d_X2c_d_varphi" i = Dv O S (S "s.X2c") i;
-    r2_dY20 : forall i, S "s.d_Y20_d_varphi" i = Dv O S (S "s.Y20") i;
-    r2_dY2s : forall i, S "s.d_Y2s_d_varphi" i = Dv O S (S "s.Y2s") i;
-    r2_dY2c : forall i, S "s.d_Y2c_d_varphi" i = Dv O S (S "s.Y2c") i;
-    r2_ode1 : forall i, ode1 O S "s.X20" "s.Y20" i = 0;
-    r2_ode2 : forall i, ode2 O S "s.X20" "s.Y20" i = 0
-  }.
-
-  Hypothesis HL : linear O.
-
-  Ltac core P HV H2 l :=
-    intros i; unfold q_s, q_c, r_s, r_c, ll, bl, alg_Y2s, alg_Y2c; unfold Dv; from_state H2; unfold_fixes O P HV l; qsimp; unfold Rdiv; try reflexivity; ring.
-  Ltac prep O P HV :=
-    unfold_fixes O P HV
-      ("fX0_from_X20" :: "fX0_from_Y20" :: "fX0_inhomogeneous"
-       :: "fXs_from_X20" :: "fXs_from_Y20" :: "fXs_inhomogeneous"
-       :: "fXc_from_X20" :: "fXc_from_Y20" :: "fXc_inhomogeneous"
-       :: "fY0_from_X20" :: "fY0_from_Y20" :: "fY0_inhomogeneous"
-       :: "fYs_from_X20" :: "fYs_from_Y20" :: "fYs_inhomogeneous"
-       :: "fYc_from_X20" :: "fYc_from_Y20" :: "fYc_inhomogeneous"
-       :: "s.X20" :: "X20" :: "s.Y20" :: "Y20" :: "s.Y2s" :: "Y2s" :: "s.Y2c" :: "Y2c" :: "X20" :: "Y20"
-       :: "s.X2s" :: "s.X2c" :: "s.Z20" :: "s.Z2s" :: "s.Z2c" :: "s.beta_1s"
-       :: "X1c" :: "Y1s" :: "Y1c" :: "torsion" :: "curvature" :: "iota_N" :: "spsi" :: "sG"
-       :: "I2_over_B0" :: "abs_G0_over_B0" :: "B0_over_abs_G0" :: nil)%list.
-  Ltac prove_ode P HV H2 Hz eqname :=
-    intros i; rewrite <- (Hz i);
-    unfold ode1, ode2, fX0, fXs, fXc, fY0, fYs, fYc, C04_spec.Dv, C04_spec.lp; from_state H2;
-    unfold_fix O P HV eqname; prep O P HV;
-    rewrite !(D_add O HL); qsimp; unfold Rdiv; ring.
-  Ltac prove_r2 P H2 Hz0 Hz1 :=
-    let HV := fresh "HV" in
-    pose proof (st_fix _ _ _ _ H2) as HV;
-    constructor;
-    [ core P HV H2 ("s.Z20" :: "Z20" :: "factor" :: "V1" :: "B0_over_abs_G0" :: "X1c" :: "Y1c" :: "Y1s" :: nil)%list
-    | core P HV H2 ("s.Z2s" :: "Z2s" :: "factor" :: "V2" :: "V3" :: "B0_over_abs_G0" :: "iota_N" :: "X1c" :: "Y1c" :: "Y1s" :: nil)%list
-    | core P HV H2 ("s.Z2c" :: "Z2c" :: "factor" :: "V2" :: "V3" :: "B0_over_abs_G0" :: "iota_N" :: "X1c" :: "Y1c" :: "Y1s" :: nil)%list
-    | core P HV H2 ("s.X2s" :: "X2s" :: "s.d_Z2s_d_varphi" :: "s.Z2c" :: "qc" :: "qs" :: "rc" :: "rs" :: "abs_G0_over_B0" :: "B0_over_abs_G0"
-                     :: "iota_N" :: "B2s" :: "B0" :: "curvature" :: "torsion" :: "X1c" :: "Y1c" :: "Y1s" :: nil)%list
-    | core P HV H2 ("s.X2c" :: "X2c" :: "s.d_Z2c_d_varphi" :: "s.Z2s" :: "qc" :: "qs" :: "rc" :: "rs" :: "abs_G0_over_B0" :: "B0_over_abs_G0"
-                     :: "iota_N" :: "B2c" :: "B0" :: "etabar" :: "curvature" :: "torsion" :: "X1c" :: "Y1c" :: "Y1s" :: nil)%list
-    | core P HV H2 ("s.Y2s" :: "Y2s" :: "Y2s_inhomogeneous" :: "Y2s_from_X20" :: "s.X20" :: "X20" :: "s.X2s" :: "s.X2c"
-                     :: "sigma" :: "curvature" :: "etabar" :: "spsi" :: "sG" :: nil)%list
-    | core P HV H2 ("s.Y2c" :: "Y2c" :: "Y2c_inhomogeneous" :: "Y2c_from_X20" :: "s.X20" :: "X20" :: "s.Y20" :: "Y20" :: "s.X2s" :: "s.X2c"
-                     :: "sigma" :: "curvature" :: "etabar" :: "spsi" :: "sG" :: nil)%list
-    | core P HV H2 ("s.B20" :: "B20" :: "s.X20" :: "X20" :: "s.d_Z20_d_varphi" :: "qc" :: "qs" :: "rc" :: "rs" :: "abs_G0_over_B0" :: "B0_over_abs_G0"
-                     :: "iota_N" :: "p2" :: "B0" :: "etabar" :: "curvature" :: "torsion" :: "X1c" :: "Y1c" :: "Y1s" :: nil)%list
-    | core P HV H2 ("s.G2" :: "p2" :: "G0" :: "B0" :: "iota" :: "I2" :: nil)%list
-    | core P HV H2 ("s.d_X20_d_varphi" :: "s.X20" :: nil)%list
-    | core P HV H2 ("s.d_X2s_d_varphi" :: "s.X2s" :: nil)%list
-    | core P HV H2 ("s.d_X2c_d_varphi" :: "s.X2c" :: nil)%list
-    | core P HV H2 ("s.d_Y20_d_varphi" :: "s.Y20" :: nil)%list
-    | core P HV H2 ("s.d_Y2s_d_varphi" :: "s.Y2s" :: nil)%list
-    | core P HV H2 ("s.d_Y2c_d_varphi" :: "s.Y2c" :: nil)%list
-    | prove_ode P HV H2 Hz0 "solve1_eq0"
-    | prove_ode P HV H2 Hz1 "solve1_eq1" ].
-
-  Lemma r2_facts_of_stage_h0 V2 : stage O calculate_r2_h0 S V2 ->
-    (forall i, V2 "solve1_eq0" i = 0) -> (forall i, V2 "solve1_eq1" i = 0) -> r2_facts.
-  Proof. intros H2 Hz0 Hz1. prove_r2 calculate_r2_h0 H2 Hz0 Hz1. Qed.
-  Lemma r2_facts_of_stage_hN V2 : stage O calculate_r2_hN S V2 ->
-    (forall i, V2 "solve1_eq0" i = 0) -> (forall i, V2 "solve1_eq1" i = 0) -> r2_facts.
-  Proof. intros H2 Hz0 Hz1. prove_r2 calculate_r2_hN H2 Hz0 Hz1. Qed.
-End Facts2.
-
-(* replace every attribute value [S name i] by an opaque variable (string-indexed atoms are large terms;
-   [field] and [subst] are much faster on variables) *)
-Ltac abs_atom S i name := let v := fresh "v" in set (v := S name i) in *; clearbody v.
-Ltac abs_atoms S i :=
-  abs_atom S i "s.curvature"; abs_atom S i "s.torsion"; abs_atom S i "s.abs_G0_over_B0"; abs_atom S i "s.iotaN"; abs_atom S i "s.iota";
-  abs_atom S i "s.B0"; abs_atom S i "s.etabar"; abs_atom S i "s.B20"; abs_atom S i "s.B2c"; abs_atom S i "s.B2s"; abs_atom S i "s.G0"; abs_atom S i "s.G2";
-  abs_atom S i "s.I2"; abs_atom S i "s.beta_1s"; abs_atom S i "s.spsi"; abs_atom S i "s.sG"; abs_atom S i "s.sigma"; abs_atom S i "s.p2";
-  abs_atom S i "s.X1c"; abs_atom S i "s.Y1c"; abs_atom S i "s.Y1s"; abs_atom S i "s.d_X1c_d_varphi"; abs_atom S i "s.d_Y1c_d_varphi"; abs_atom S i "s.d_Y1s_d_varphi";
-  abs_atom S i "s.X20"; abs_atom S i "s.X2c"; abs_atom S i "s.X2s"; abs_atom S i "s.Y20"; abs_atom S i "s.Y2c"; abs_atom S i "s.Y2s";
-  abs_atom S i "s.Z20"; abs_atom S i "s.Z2c"; abs_atom S i "s.Z2s";
-  abs_atom S i "s.d_X20_d_varphi"; abs_atom S i "s.d_X2c_d_varphi"; abs_atom S i "s.d_X2s_d_varphi";
-  abs_atom S i "s.d_Y20_d_varphi"; abs_atom S i "s.d_Y2c_d_varphi"; abs_atom S i "s.d_Y2s_d_varphi";
-  abs_atom S i "s.d_Z20_d_varphi"; abs_atom S i "s.d_Z2c_d_varphi"; abs_atom S i "s.d_Z2s_d_varphi";
-  abs_atom S i "s.X3c1"; abs_atom S i "s.Y3c1"; abs_atom S i "s.Y3s1"; abs_atom S i "s.flux_constraint_coefficient";
-  abs_atom S i "s.d_varphi_d_phi".
-
-(* ------------------------------------------------------------------------------------------ *)
-(* Third order: facts extracted from calculate_r3 *)
-Section Facts3.
-  Context {I : Type} (O : ops I) (S : string -> I -> R).
-  (* the flux-constraint coefficient lambda, as written in calculate_r3 *)
-  Definition lam_code (i : I) : R :=
-    let B0 := S "s.B0" i in let G0 := S "s.G0" i in let I2 := S "s.I2" i in let iotaN := S "s.iotaN" i in
-    let lp := S "s.abs_G0_over_B0" i in let tau := S "s.torsion" i in let B1c := S "s.etabar" i * S "s.B0" i in
-    let B20 := S "s.B20" i in
-    let X1c := S "s.X1c" i in let Y1c := S "s.Y1c" i in let Y1s := S "s.Y1s" i in
-    let dX1c := S "s.d_X1c_d_varphi" i in let dY1c := S "s.d_Y1c_d_varphi" i in
-    let X20 := S "s.X20" i in let X2c := S "s.X2c" i in let X2s := S "s.X2s" i in
-    let Y20 := S "s.Y20" i in let Y2c := S "s.Y2c" i in let Y2s := S "s.Y2s" i in
-    let Z20 := S "s.Z20" i in let Z2c := S "s.Z2c" i in let Z2s := S "s.Z2s" i in
-    (-4*B0^2*G0*X20^2*Y1c^2 + 8*B0^2*G0*X20*X2c*Y1c^2 - 4*B0^2*G0*X2c^2*Y1c^2 - 4*B0^2*G0*X2s^2*Y1c^2 + 8*B0*G0*B1c*X1c*X2s*Y1c*Y1s + 16*B0^2*G0*X20*X2s*Y1c*Y1s + 2*B0^2*I2*iotaN*X1c^2*Y1s^2 - G0*B1c^2*X1c^2*Y1s^2 - 4*B0*G0*B20*X1c^2*Y1s^2 - 8*B0*G0*B1c*X1c*X20*Y1s^2 - 4*B0^2*G0*X20^2*Y1s^2 - 8*B0*G0*B1c*X1c*X2c*Y1s^2 - 8*B0^2*G0*X20*X2c*Y1s^2 - 4*B0^2*G0*X2c^2*Y1s^2 - 4*B0^2*G0*X2s^2*Y1s^2 + 8*B0^2*G0*X1c*X20*Y1c*Y20 - 8*B0^2*G0*X1c*X2c*Y1c*Y20 - 8*B0^2*G0*X1c*X2s*Y1s*Y20 - 4*B0^2*G0*X1c^2*Y20^2 - 8*B0^2*G0*X1c*X20*Y1c*Y2c + 8*B0^2*G0*X1c*X2c*Y1c*Y2c + 24*B0^2*G0*X1c*X2s*Y1s*Y2c + 8*B0^2*G0*X1c^2*Y20*Y2c - 4*B0^2*G0*X1c^2*Y2c^2 + 8*B0^2*G0*X1c*X2s*Y1c*Y2s - 8*B0*G0*B1c*X1c^2*Y1s*Y2s - 8*B0^2*G0*X1c*X20*Y1s*Y2s - 24*B0^2*G0*X1c*X2c*Y1s*Y2s - 4*B0^2*G0*X1c^2*Y2s^2 - 4*B0^2*G0*X1c^2*Z20^2 - 4*B0^2*G0*Y1c^2*Z20^2 - 4*B0^2*G0*Y1s^2*Z20^2 - 4*B0^2*lp*I2*Y1c*Y1s*Z2c + 8*B0^2*G0*X1c^2*Z20*Z2c + 8*B0^2*G0*Y1c^2*Z20*Z2c - 8*B0^2*G0*Y1s^2*Z20*Z2c - 4*B0^2*G0*X1c^2*Z2c^2 - 4*B0^2*G0*Y1c^2*Z2c^2 - 4*B0^2*G0*Y1s^2*Z2c^2 + 2*B0^2*lp*I2*X1c^2*Z2s + 2*B0^2*lp*I2*Y1c^2*Z2s - 2*B0^2*lp*I2*Y1s^2*Z2s + 16*B0^2*G0*Y1c*Y1s*Z20*Z2s - 4*B0^2*G0*X1c^2*Z2s^2 - 4*B0^2*G0*Y1c^2*Z2s^2 - 4*B0^2*G0*Y1s^2*Z2s^2 + B0^2*lp*I2*X1c^3*Y1s*tau + B0^2*lp*I2*X1c*Y1c^2*Y1s*tau + B0^2*lp*I2*X1c*Y1s^3*tau - B0^2*I2*X1c*Y1c*Y1s*dX1c + B0^2*I2*X1c^2*Y1s*dY1c)/(16*B0^2*G0*X1c^2*Y1s^2).
-
-  Record r3_facts : Prop := {
-    r3_X3c1 : forall i, S "s.X3c1" i = S "s.X1c" i * S "s.flux_constraint_coefficient" i;
-    r3_Y3c1 : forall i, S "s.Y3c1" i = S "s.Y1c" i * S "s.flux_constraint_coefficient" i;
-    r3_Y3s1 : forall i, S "s.Y3s1" i = S "s.Y1s" i * S "s.flux_constraint_coefficient" i;
-    r3_lam : forall i, S "s.flux_constraint_coefficient" i = lam_code i
-  }.
-
-  Ltac prove_r3 P H3 :=
-    let HV := fresh "HV" in
-    pose proof (st_fix _ _ _ _ H3) as HV;
-    constructor;
-    [ intros i; from_state H3; unfold_fixes O P HV ("s.X3c1" :: "s.flux_constraint_coefficient" :: nil)%list; reflexivity
-    | intros i; from_state H3; unfold_fixes O P HV ("s.Y3c1" :: "s.flux_constraint_coefficient" :: nil)%list; reflexivity
-    | intros i; from_state H3; unfold_fixes O P HV ("s.Y3s1" :: "s.flux_constraint_coefficient" :: nil)%list; reflexivity
-    | intros i; unfold lam_code; cbv zeta; from_state H3;
-      unfold_fixes O P HV ("s.flux_constraint_coefficient" :: "flux_constraint_coefficient" :: "B0" :: "G0" :: "I2" :: "X1c" :: "Y1c" :: "Y1s"
-        :: "X20" :: "X2s" :: "X2c" :: "Y20" :: "Y2s" :: "Y2c" :: "Z20" :: "Z2s" :: "Z2c" :: "B20" :: "B1c" :: "B0" :: "torsion"
-        :: "abs_G0_over_B0" :: "d_X1c_d_varphi" :: "d_Y1c_d_varphi" :: nil)%list;
-      qsimp; unfold Rdiv; ring ].
-  Lemma r3_facts_of_stage_h0 V3 : stage O calculate_r3_h0 S V3 -> r3_facts.
-  Proof. intros H3. prove_r3 calculate_r3_h0 H3. Qed.
-  Lemma r3_facts_of_stage_hN V3 : stage O calculate_r3_hN S V3 -> r3_facts.
-  Proof. intros H3. prove_r3 calculate_r3_hN H3. Qed.
-End Facts3.
-
-(* ------------------------------------------------------------------------------------------ *)
-(* Second order: claims *)
-Section R2.
-  Context {I : Type} (O : ops I) (S : string -> I -> R).
-  Hypothesis HD : derivation O.
-  Hypothesis HA : axis_facts S.
-  Hypothesis HR : r1_facts O S.
-  Hypothesis H2 : r2_facts O S.
-  Hypothesis Hadm : admissible S.
-  Hypothesis Hsig : forall i, sigma_residual O S i = 0.
-  Hypothesis H3 : r3_facts S.
-  Let HL : linear O := der_lin O HD.
-
-  Notation kap := (S "s.curvature"). Notation eta := (S "s.etabar"). Notation sig := (S "s.sigma").
-  Notation sG := (S "s.sG"). Notation spsi := (S "s.spsi"). Notation lp := (S "s.abs_G0_over_B0").
-  Notation B0 := (S "s.B0"). Notation iotaN := (S "s.iotaN"). Notation tau := (S "s.torsion").
-  Notation X1c := (S "s.X1c"). Notation Y1c := (S "s.Y1c"). Notation Y1s := (S "s.Y1s").
-  Notation dX1c := (S "s.d_X1c_d_varphi"). Notation dY1c := (S "s.d_Y1c_d_varphi"). Notation dY1s := (S "s.d_Y1s_d_varphi").
-
-  Ltac sign_cases i :=
-    let HsG := fresh "HsG" in let Hsp := fresh "Hsp" in
-    destruct (sq1_cases _ (adm_sG S Hadm i)) as [HsG|HsG];
-    destruct (sq1_cases _ (adm_spsi S Hadm i)) as [Hsp|Hsp];
-    rewrite ?HsG, ?Hsp.
-  Ltac nonzero i :=
-    pose proof (adm_eta S Hadm i); pose proof (adm_kappa S Hadm i);
-    pose proof (Rgt_not_eq _ _ (adm_B0 S Hadm i)); pose proof (Rgt_not_eq _ _ (adm_lp S Hadm i));
-    pose proof (adm_dvp S Hadm i).
-
-  Lemma bl_lp i : bl S i = / lp i.
-  Proof.
-    unfold bl. rewrite (ax_G0 S HA). cbv beta.
-    pose proof (adm_B0 S Hadm i) as Hb. pose proof (adm_lp S Hadm i) as Hl.
-    rewrite !Rabs_mult, (Rabs_pos_eq (lp i)), (Rabs_pos_eq (B0 i)) by lra.
-    assert (Hs : Rabs (sG i) = 1).
-    { destruct (sq1_cases _ (adm_sG S Hadm i)) as [E|E]; rewrite E; unfold Rabs; destruct Rcase_abs; lra. }
-    rewrite Hs. field. split; lra.
-  Qed.
-  Lemma ll_lp i : ll S i = lp i.
-  Proof. unfold ll. rewrite bl_lp. pose proof (adm_lp S Hadm i). field. lra. Qed.
-
-  Lemma Z20_formula i : S "s.Z20" i = - / lp i / 8 * (2 * (X1c i * dX1c i + Y1c i * dY1c i + Y1s i * dY1s i)).
-  Proof.
-    rewrite (r2_Z20 O S H2), bl_lp, (r1_dX1c O S HR), (r1_dY1c O S HR), (r1_dY1s O S HR). unfold Dv.
-    rewrite !(D_add O HL), !(D_mul O HD). nonzero i. field. split; assumption.
-  Qed.
-  Lemma Z2s_formula i : S "s.Z2s" i = - / lp i / 8 * (2 * (dY1s i * Y1c i + Y1s i * dY1c i)
-                                     - 2 * iotaN i * (X1c i * X1c i + Y1c i * Y1c i - Y1s i * Y1s i)).
-  Proof.
-    rewrite (r2_Z2s O S H2), bl_lp, (r1_dY1c O S HR), (r1_dY1s O S HR). unfold Dv.
-    rewrite (D_mul O HD (fun k => 2 * Y1s k) Y1c i), (D_scal O HL 2 Y1s i). nonzero i. field. split; assumption.
-  Qed.
-  Lemma Z2c_formula i : S "s.Z2c" i = - / lp i / 8 * (2 * (X1c i * dX1c i + Y1c i * dY1c i - Y1s i * dY1s i)
-                                     + 2 * iotaN i * (2 * Y1s i * Y1c i)).
-  Proof.
-    rewrite (r2_Z2c O S H2), bl_lp, (r1_dX1c O S HR), (r1_dY1c O S HR), (r1_dY1s O S HR). unfold Dv.
-    rewrite (D_sub O HL), !(D_add O HL), !(D_mul O HD). nonzero i. field. split; assumption.
-  Qed.
-
-  Section Claims.
-    Variable i : I.
-    Variable b : atoms.
-  (* the first-order solution re-expressed with X1c, Y1c, d X1c as the independent atoms *)
-    Lemma X1c_nz : X1c i <> 0.
-    Proof. rewrite (ax_X1c S HA). nonzero i. unfold Rdiv. apply Rmult_integral_contrapositive_currified; [assumption|apply Rinv_neq_0_compat; assumption]. Qed.
-    Lemma Y1s_x : Y1s i = sG i * spsi i / X1c i.
-    Proof. rewrite (ax_X1c S HA), (r1_Y1s O S HR). nonzero i. field. split; assumption. Qed.
-    Lemma eta_x : eta i = kap i * X1c i.
-    Proof. rewrite (ax_X1c S HA). nonzero i. field. assumption. Qed.
-    Lemma sig_x : sig i = Y1c i * X1c i * (sG i * spsi i).
-    Proof. rewrite (ax_X1c S HA), (r1_Y1c O S HR). nonzero i. sign_cases i; field; split; assumption. Qed.
-    Lemma dY1s_x : dY1s i = - dX1c i * (sG i * spsi i) / (X1c i * X1c i).
-    Proof.
-      rewrite (dX1c_formula O S HD HA HR Hadm), (dY1s_formula O S HD HR Hadm), (ax_X1c S HA). nonzero i.
-      field. split; assumption.
-    Qed.
-    Lemma dY1c_x : dY1c i = (2 * S "s.I2" i * lp i * X1c i * Y1s i / (spsi i * B0 i)
-                             - 2 * lp i * tau i * X1c i * Y1s i
-                             - iotaN i * (X1c i * X1c i + Y1s i * Y1s i + Y1c i * Y1c i) + dY1s i * Y1c i) / Y1s i.
-    Proof.
-      pose proof (pol3_avg_identity O S HD HA HR Hadm i (atoms_of S i)) as K. rewrite Hsig, Rmult_0_r in K.
-      unfold with_first_order, atoms_of in K. cbv -[Rplus Rmult Ropp Rinv Rminus Rdiv IZR pow o_D Dv sigma_residual] in K.
-      nonzero i. pose proof X1c_nz as Hx.
-      assert (Hy : Y1s i <> 0).
-      { rewrite Y1s_x. sign_cases i; unfold Rdiv; apply Rmult_integral_contrapositive_currified; try lra; apply Rinv_neq_0_compat; assumption. }
-      assert (Hp : spsi i <> 0) by (intros E; pose proof (adm_spsi S Hadm i) as Q; rewrite E in Q; lra).
-      match type of K with ?L = 0 =>
-        assert (E : (dY1c i - (2 * S "s.I2" i * lp i * X1c i * Y1s i / (spsi i * B0 i)
-                             - 2 * lp i * tau i * X1c i * Y1s i
-                             - iotaN i * (X1c i * X1c i + Y1s i * Y1s i + Y1c i * Y1c i) + dY1s i * Y1c i) / Y1s i)
-                    * (spsi i * B0 i * Y1s i / 2) = L) by (field; repeat split; assumption)
-      end.
-      rewrite K in E. apply Rmult_integral in E. destruct E as [E|E]; [lra|].
-      exfalso. assert (spsi i * B0 i * Y1s i <> 0) by (repeat apply Rmult_integral_contrapositive_currified; assumption). lra.
-    Qed.
-
-    Notation ss := (S "s.sG" i * S "s.spsi" i).
-    Notation x := (S "s.X1c" i). Notation c := (S "s.Y1c" i). Notation dx := (S "s.d_X1c_d_varphi" i).
-    Lemma Y1s_nz : Y1s i <> 0.
-    Proof.
-      pose proof X1c_nz. rewrite Y1s_x.
-      sign_cases i; unfold Rdiv; apply Rmult_integral_contrapositive_currified; try lra; apply Rinv_neq_0_compat; assumption.
-    Qed.
-    (* compact forms (sympy) of dY1c, Z2*, Y2* in the independent atoms x = X1c, c = Y1c, dx = dX1c *)
-    Lemma dY1c_c : dY1c i = - ss * iotaN i * (x ^ 4 + x * x * c * c + 1) / x - 2 * x * lp i * tau i - c * dx / x
-                            + 2 * S "s.I2" i * x * lp i * spsi i / B0 i.
-    Proof.
-      rewrite dY1c_x, dY1s_x, Y1s_x. nonzero i. pose proof X1c_nz.
-      sign_cases i; field; repeat split; try assumption; lra.
-    Qed.
-    Lemma Z20_c : S "s.Z20" i = ss * iotaN i * x * c * (x * x + c * c) / (4 * lp i) + x * c * tau i / 2 - x * dx / (4 * lp i)
-          + c * c * dx / (4 * x * lp i) + ss * c * iotaN i / (4 * x * lp i) + dx / (4 * x ^ 3 * lp i)
-          - S "s.I2" i * x * c * spsi i / (2 * B0 i).
-    Proof.
-      rewrite Z20_formula, dY1c_c, dY1s_x, Y1s_x. nonzero i. pose proof X1c_nz.
-      sign_cases i; field; repeat split; try assumption; lra.
-    Qed.
-    Lemma Z2c_c : S "s.Z2c" i = ss * iotaN i * x * c * (x * x + c * c) / (4 * lp i) + x * c * tau i / 2 - x * dx / (4 * lp i)
-          + c * c * dx / (4 * x * lp i) - ss * c * iotaN i / (4 * x * lp i) - dx / (4 * x ^ 3 * lp i)
-          - S "s.I2" i * x * c * spsi i / (2 * B0 i).
-    Proof.
-      rewrite Z2c_formula, dY1c_c, dY1s_x, Y1s_x. nonzero i. pose proof X1c_nz.
-      sign_cases i; field; repeat split; try assumption; lra.
-    Qed.
-    Lemma Z2s_c : S "s.Z2s" i = iotaN i * (x * x + c * c) / (2 * lp i) + ss * tau i / 2 + c * dx * ss / (2 * x * x * lp i)
-          - S "s.I2" i * ss * spsi i / (2 * B0 i).
-    Proof.
-      rewrite Z2s_formula, dY1c_c, dY1s_x, Y1s_x. nonzero i. pose proof X1c_nz.
-      sign_cases i; field; repeat split; try assumption; lra.
-    Qed.
-    Lemma Y2s_c : S "s.Y2s" i = - ss * kap i / 2 - ss * (S "s.X2c" i + S "s.X20" i) / (x * x) + S "s.X2s" i * c / x.
-    Proof.
-      rewrite (r2_Y2s O S H2). unfold alg_Y2s. rewrite sig_x, eta_x. nonzero i. pose proof X1c_nz.
-      sign_cases i; field; repeat split; try assumption; lra.
-    Qed.
-    Lemma Y2c_c : S "s.Y2c" i = ss * S "s.X2s" i / (x * x) + S "s.X2c" i * c / x - c * S "s.X20" i / x + S "s.Y20" i.
-    Proof.
-      rewrite (r2_Y2c O S H2). unfold alg_Y2c. rewrite sig_x, eta_x. nonzero i. pose proof X1c_nz.
-      sign_cases i; field; repeat split; try assumption; lra.
-    Qed.
-
-
-    Ltac start := destruct b; unfold with_second_order, atoms_of; nonzero i; pose proof X1c_nz.
-    Ltac split_coefs := compute_coef; repeat first [apply Forall_nil | apply Forall_cons | split]; cbn [fst snd cv]; try reflexivity.
-    Ltac dsigns :=
-      let HsG := fresh "HsG" in let Hsp := fresh "Hsp" in
-      destruct (sq1_cases _ (adm_sG S Hadm i)) as [HsG|HsG]; destruct (sq1_cases _ (adm_spsi S Hadm i)) as [Hsp|Hsp].
-    Ltac fin := abs_atoms S i; subst; field; repeat split; assumption.
-    Ltac pose_Z := pose proof (Z20_formula i) as EZ0; pose proof (Z2s_formula i) as EZs; pose proof (Z2c_formula i) as EZc.
-    (* facts in the compact parametrisation *)
-    Ltac pose_common :=
-      pose proof Y2s_c as EY2s; pose proof Y2c_c as EY2c; pose proof Z20_c as EZ0; pose proof Z2s_c as EZs; pose proof Z2c_c as EZc;
-      pose proof dY1c_c as EdY1c; pose proof dY1s_x as EdY1s; pose proof Y1s_x as EY1s; pose proof eta_x as Eeta;
-      pose proof (f_equal (fun f => f i) (ax_G0 S HA)) as EG0; cbv beta in EG0.
-    Ltac prep_q E :=
-      unfold q_c, q_s, r_c, r_s in E; rewrite ?ll_lp, ?bl_lp in E;
-      rewrite <- ?(r1_dX1c O S HR), <- ?(r1_dY1c O S HR), <- ?(r1_dY1s O S HR) in E.
-
-    Lemma rad1 : tzero (rad (with_second_order S i b) 1%nat).
-    Proof. start. split_coefs; pose_Z; fin. Qed.
-    Lemma pol3 : tzero (pol (with_second_order S i b) 3%nat).
-    Proof.
-      pose proof (pol3_avg_identity O S HD HA HR Hadm i (atoms_of S i)) as K. rewrite Hsig, Rmult_0_r in K.
-      start. split_coefs; [exact K | |]; pose_Z; fin.
-    Qed.
-    Ltac solve_all :=
-      repeat first [apply Forall_nil | apply Forall_cons | split]; cbn [fst snd cv]; try reflexivity;
-      field; repeat split; assumption.
-    Lemma tor2 : tzero (tor (with_second_order S i b) 2%nat).
-    Proof. start. compute_coef. dsigns; pose_common; abs_atoms S i; subst; solve_all. Qed.
-    Lemma jac2 : tzero (jac (with_second_order S i b) 2%nat).
-    Proof. start. compute_coef. dsigns; pose_common; abs_atoms S i; subst; solve_all. Qed.
-    Lemma modB2 : tzero (modB (with_second_order S i b) 2%nat).
-    Proof.
-      start. compute_coef.
-      pose proof (r2_B20 O S H2 i) as EB20; prep_q EB20. pose proof (r2_G2 O S H2 i) as EG2.
-      pose proof (r2_X2c O S H2 i) as EX2c; prep_q EX2c. pose proof (r2_X2s O S H2 i) as EX2s; prep_q EX2s.
-      dsigns; pose_common; abs_atoms S i; subst; solve_all.
-    Qed.
-
-    Ltac use_ode c E Hode :=
-      match goal with |- ?L = 0 => transitivity (c * E); [ | rewrite Hode; ring] end;
-      unfold ode1, ode2, fX0, fXs, fXc, fY0, fYs, fYc, C04_spec.lp, C04_spec.Dv;
-      change (S "s.B0" i / Rabs (S "s.G0" i)) with (bl S i); rewrite bl_lp;
-      pose proof (r2_dX20 O S H2 i) as D1; pose proof (r2_dX2s O S H2 i) as D2; pose proof (r2_dX2c O S H2 i) as D3;
-      pose proof (r2_dY20 O S H2 i) as D4; pose proof (r2_dY2s O S H2 i) as D5; pose proof (r2_dY2c O S H2 i) as D6;
-      unfold Dv in D1, D2, D3, D4, D5, D6; rewrite <- ?D1, <- ?D2, <- ?D3, <- ?D4, <- ?D5, <- ?D6;
-      clear D1 D2 D3 D4 D5 D6.
-    Lemma crl2 : tzero (crl (with_second_order S i b) 2%nat).
-    Proof.
-      start. split_coefs; try ring.
-      - use_ode (-2 * spsi i * B0 i) (ode1 O S "s.X20" "s.Y20" i) (r2_ode1 O S H2 i). dsigns; pose_common; fin.
-      - use_ode (2 * spsi i * B0 i) (ode2 O S "s.X20" "s.Y20" i) (r2_ode2 O S H2 i). dsigns; pose_common; fin.
-    Qed.
-
-    Theorem r2_claims : claims_r2 (with_second_order S i b).
-    Proof. repeat split; [apply pol3 | apply tor2 | apply rad1 | apply jac2 | apply modB2 | apply crl2]. Qed.
-  End Claims.
-
-  (* ---- third order: the poloidally averaged O(r^3) toroidal and Jacobian (flux) conditions ---- *)
-  Section Claims3.
-    Variable i : I.
-  (* all the facts needed at third order, as hypotheses *)
-    Ltac pose_facts :=
-      pose proof (r3_X3c1 S H3 i) as E1; pose proof (r3_Y3c1 S H3 i) as E2; pose proof (r3_Y3s1 S H3 i) as E3;
-      pose proof (r3_lam S H3 i) as E4; unfold lam_code in E4; cbv zeta in E4;
-      pose proof (r2_B20 O S H2 i) as E5; unfold q_c, q_s, r_c, r_s in E5;
-      rewrite ?ll_lp, ?bl_lp in E5;
-      rewrite <- ?(r1_dX1c O S HR), <- ?(r1_dY1c O S HR), <- ?(r1_dY1s O S HR) in E5;
-      pose proof (r2_G2 O S H2 i) as E6;
-      pose proof (Y2s_c i) as E7; pose proof (Y2c_c i) as E8; pose proof (Z20_c i) as E9; pose proof (Z2s_c i) as E10;
-      pose proof (Z2c_c i) as E11; pose proof (dY1c_c i) as E12; pose proof (dY1s_x i) as E13; pose proof (Y1s_x i) as E14;
-      pose proof (eta_x i) as E15;
-      pose proof (f_equal (fun f => f i) (ax_G0 S HA)) as E16; cbv beta in E16.
-
-    Lemma tor3_avg : tavg (tor (atoms_of S i) 3%nat) = 0.
-    Proof.
-      unfold atoms_of. nonzero i. pose proof (X1c_nz i). compute_coef.
-      destruct (sq1_cases _ (adm_sG S Hadm i)) as [HsG|HsG]; destruct (sq1_cases _ (adm_spsi S Hadm i)) as [Hsp|Hsp].
-      all: pose_facts; abs_atoms S i; subst; field; repeat split; assumption.
-    Qed.
-
-    (* psi' modB = B^2 tor + Gh jac, read at [r^3, average]: with modB[r^2], tor[r^1], tor[r^2], jac[r^1] already
-       shown to vanish, the averaged Jacobian condition is equivalent to the averaged toroidal one *)
-    Lemma jac3_avg : tavg (jac (atoms_of S i) 3%nat) = 0.
-    Proof.
-      pose proof tor3_avg as T30.
-      pose proof (tzero_tcos _ (modB2 i (atoms_of S i)) 0%nat) as M20.
-      pose proof (tzero_tcos _ (tor2 i (atoms_of S i)) 1%nat) as T21.
-      first [ pose proof (r1_claims O S HA HR Hadm i (atoms_of S i)) as R1c
-            | pose proof (r1_claims O S HD HA HR Hadm i (atoms_of S i)) as R1c ].
-      destruct R1c as (_ & _ & _ & _ & T1 & _ & _ & J1 & _).
-      pose proof (tzero_tcos _ T1 0%nat) as T10. pose proof (tzero_tcos _ J1 0%nat) as J10.
-      assert (ID : S "s.spsi" i * S "s.B0" i * tcos (modB (with_second_order S i (atoms_of S i)) 2%nat) 0
-                   = S "s.B0" i * S "s.B0" i * tavg (tor (atoms_of S i) 3%nat)
-                     + S "s.G0" i * tavg (jac (atoms_of S i) 3%nat)
-                     + S "s.B0" i * S "s.B0" i * S "s.etabar" i * tcos (tor (with_second_order S i (atoms_of S i)) 2%nat) 1
-                     + (2 * S "s.B0" i * S "s.B20" i + S "s.B0" i * S "s.B0" i * S "s.etabar" i * S "s.etabar" i / 2)
-                       * tcos (tor (with_first_order S i (atoms_of S i)) 1%nat) 0
-                     + (S "s.G2" i + (S "s.iota" i - S "s.iotaN" i) * S "s.I2" i)
-                       * tcos (jac (with_first_order S i (atoms_of S i)) 1%nat) 0).
-      { unfold with_second_order, with_first_order, atoms_of. compute_coef. field. }
-      rewrite M20, T30, T21, T10, J10 in ID.
-      assert (HG : S "s.G0" i <> 0).
-      { rewrite (ax_G0 S HA). nonzero i.
-        destruct (sq1_cases _ (adm_sG S Hadm i)) as [E|E]; rewrite E;
-          repeat apply Rmult_integral_contrapositive_currified; try assumption; lra. }
-      apply (Rmult_eq_reg_l (S "s.G0" i)); [lra | exact HG].
-    Qed.
-    Theorem r3_claims : claims_r3 (atoms_of S i).
-    Proof. split; [apply tor3_avg | apply jac3_avg]. Qed.
-  End Claims3.
-End R2.
-
-
-(* ------------------------------------------------------------------------------------------ *)
-(* Closed statements: for every index type, every operator structure whose o_D is a derivation, every object
-   state S and all models of the regenerated programs agreeing with S on attributes.  h0 / hN are the two
-   helicity variants of the translated functions. *)
-Definition r1_hyps {I : Type} (O : ops I) (S : string -> I -> R) (P1 : prog) : Prop :=
-  derivation O /\ admissible S
-  /\ (exists VA, stage O init_axis S VA) /\ (exists V1, stage O P1 S V1)
-  /\ (exists VR, stage O residual S VR /\ sigma_solved O S VR).
-Definition r2_hyps {I : Type} (O : ops I) (S : string -> I -> R) (P1 P2 : prog) : Prop :=
-  r1_hyps O S P1
-  /\ (exists V2, stage O P2 S V2 /\ (forall i, V2 "solve1_eq0" i = 0) /\ (forall i, V2 "solve1_eq1" i = 0)).
-Definition r3_hyps {I : Type} (O : ops I) (S : string -> I -> R) (P1 P2 P3 : prog) : Prop :=
-  r2_hyps O S P1 P2 /\ (exists V3, stage O P3 S V3).
-
-Section Closed.
-  Context {I : Type} (O : ops I) (S : string -> I -> R).
-
-  (* order r1; [b] supplies arbitrary values for every attribute of order >= 2 *)
-  Definition C01_r1_statement (P1 : prog) : Prop :=
-    r1_hyps O S P1 -> forall i b,
-      claims_r1 (with_first_order S i b) /\ claims_r1_avg (with_first_order S i b)
-      /\ tavg (pol (with_first_order S i b) 3%nat)
-          = S "s.spsi" i * S "s.B0" i * (S "s.curvature" i * S "s.curvature" i) / (2 * (S "s.etabar" i * S "s.etabar" i))
-            * sigma_residual O S i.
-  Lemma C01_r1_gen P1 : (forall V1, stage O P1 S V1 -> r1_facts O S) -> C01_r1_statement P1.
-  Proof.
-    intros F (HD & Hadm & [VA HA] & [V1 H1] & [VR [HRs Hsol]]) i b.
-    pose proof (axis_facts_of_stage O S VA HA) as FA. pose proof (F V1 H1) as FR.
-    first [ pose proof (sigma_residual_zero O S FA Hadm VR HRs Hsol) as Hs
-          | pose proof (sigma_residual_zero O S HD FA FR Hadm VR HRs Hsol) as Hs
-          | pose proof (sigma_residual_zero O S HD FA Hadm VR HRs Hsol) as Hs ].
-    split; [first [exact (r1_claims O S FA FR Hadm i b) | exact (r1_claims O S HD FA FR Hadm i b)]|]. split.
-    - exact (r1_avg_claims O S HD FA FR Hadm i b (Hs i)).
-    - exact (pol3_avg_identity O S HD FA FR Hadm i b).
-  Qed.
-  Theorem C01_r1_h0 : C01_r1_statement r1_diagnostics_h0.
-  Proof. apply C01_r1_gen. apply r1_facts_of_stage_h0. Qed.
-  Theorem C01_r1_hN : C01_r1_statement r1_diagnostics_hN.
-  Proof. apply C01_r1_gen. apply r1_facts_of_stage_hN. Qed.
-
-  (* order r2; [b] supplies arbitrary values for every attribute of order 3 *)
-  Definition C01_r2_statement (P1 P2 : prog) : Prop :=
-    r2_hyps O S P1 P2 -> forall i b, claims_r2 (with_second_order S i b).
-  Lemma C01_r2_gen P1 P2 : (forall V1, stage O P1 S V1 -> r1_facts O S) ->
-    (forall V2, stage O P2 S V2 -> (forall i, V2 "solve1_eq0" i = 0) -> (forall i, V2 "solve1_eq1" i = 0) -> r2_facts O S) ->
-    C01_r2_statement P1 P2.
-  Proof.
-    intros F F2 ((HD & Hadm & [VA HA] & [V1 H1] & [VR [HRs Hsol]]) & [V2 (H2 & Hz0 & Hz1)]) i b.
-    pose proof (axis_facts_of_stage O S VA HA) as FA. pose proof (F V1 H1) as FR.
-    first [ pose proof (sigma_residual_zero O S FA Hadm VR HRs Hsol) as Hs
-          | pose proof (sigma_residual_zero O S HD FA FR Hadm VR HRs Hsol) as Hs
-          | pose proof (sigma_residual_zero O S HD FA Hadm VR HRs Hsol) as Hs ].
-    exact (r2_claims O S HD FA FR (F2 V2 H2 Hz0 Hz1) Hadm Hs i b).
-  Qed.
-  Ltac close_r2 f1 f2 :=
-    let H := fresh "H" in let HD := fresh "HD" in
-    intros H; pose proof H as ((HD & _) & _); revert H;
-    apply C01_r2_gen; [apply f1 | apply (f2 O S (der_lin O HD))].
-  Theorem C01_r2_h0 : C01_r2_statement r1_diagnostics_h0 calculate_r2_h0.
-  Proof.
-    intros H. pose proof H as ((HD & _) & _). revert H.
-    apply C01_r2_gen; [apply r1_facts_of_stage_h0 | apply (r2_facts_of_stage_h0 O S (der_lin O HD))].
-  Qed.
-
-  (* order r3 *)
-  Definition C01_r3_statement (P1 P2 P3 : prog) : Prop :=
-    r3_hyps O S P1 P2 P3 -> forall i, claims_r3 (atoms_of S i).
-  Lemma C01_r3_gen P1 P2 P3 : (forall V1, stage O P1 S V1 -> r1_facts O S) ->
-    (forall V2, stage O P2 S V2 -> (forall i, V2 "solve1_eq0" i = 0) -> (forall i, V2 "solve1_eq1" i = 0) -> r2_facts O S) ->
-    (forall V3, stage O P3 S V3 -> r3_facts S) ->
-    C01_r3_statement P1 P2 P3.
-  Proof.
-    intros F F2 F3 (((HD & Hadm & [VA HA] & [V1 H1] & [VR [HRs Hsol]]) & [V2 (H2 & Hz0 & Hz1)]) & [V3 H3]) i.
-    pose proof (axis_facts_of_stage O S VA HA) as FA. pose proof (F V1 H1) as FR.
-    first [ pose proof (sigma_residual_zero O S FA Hadm VR HRs Hsol) as Hs
-          | pose proof (sigma_residual_zero O S HD FA FR Hadm VR HRs Hsol) as Hs
-          | pose proof (sigma_residual_zero O S HD FA Hadm VR HRs Hsol) as Hs ].
-    exact (r3_claims O S HD FA FR (F2 V2 H2 Hz0 Hz1) Hadm Hs (F3 V3 H3) i).
-  Qed.
-  Theorem C01_r2_hN : C01_r2_statement r1_diagnostics_hN calculate_r2_hN.
-  Proof. close_r2 (@r1_facts_of_stage_hN I O S) (@r2_facts_of_stage_hN I). Qed.
-
-  Ltac close_r3 f1 f2 f3 :=
-    let H := fresh "H" in let HD := fresh "HD" in
-    intros H; pose proof H as (((HD & _) & _) & _); revert H;
-    apply C01_r3_gen; [apply f1 | apply (f2 O S (der_lin O HD)) | apply f3].
-  Theorem C01_r3_h0 : C01_r3_statement r1_diagnostics_h0 calculate_r2_h0 calculate_r3_h0.
-  Proof. close_r3 (@r1_facts_of_stage_h0 I O S) (@r2_facts_of_stage_h0 I) (@r3_facts_of_stage_h0 I O S). Qed.
-  Theorem C01_r3_hN : C01_r3_statement r1_diagnostics_hN calculate_r2_hN calculate_r3_hN.
-  Proof. close_r3 (@r1_facts_of_stage_hN I O S) (@r2_facts_of_stage_hN I) (@r3_facts_of_stage_hN I O S). Qed.
-End Closed.
-
-Print Assumptions C01_r1_h0.
-Print Assumptions C01_r1_hN.
-Print Assumptions C01_r2_h0.
-Print Assumptions C01_r2_hN.
-Print Assumptions C01_r3_h0.
-Print Assumptions C01_r3_hN.
-
+   The development is split for parallel compilation; this file only re-exports it, so that
+   `From QSCProps Require Import C01` gives every name of the former single file:
+     C01_common  (tactics, quotient rule, fact records, stage lemmas of init_axis / r1_diagnostics)
+     C01_facts2, C01_facts3  (facts extracted from calculate_r2 / calculate_r3)
+     C01_r1      (order r1: r1_claims, pol3_avg_identity, crl1_identity, sigma_residual_zero, C01_r1_h0, C01_r1_hN)
+     C01_r2base  (Z2 formulas, compact first-order solution, record cfacts, shared tactics)
+     C01_r2a / C01_r2b / C01_r2c  (rad1, pol3, tor2, jac2 / modB2 / crl2)
+     C01_r2      (r2_claims, C01_r2_h0, C01_r2_hN)
+     C01_r3a / C01_r3b  (avg tor[r^3] = 0 for sG = 1 / sG = -1)
+     C01_r3      (tor3_avg, jac3_avg, r3_claims, C01_r3_h0, C01_r3_hN)
+   Print Assumptions for the six closed theorems is at the end of C01_r1.v, C01_r2.v, C01_r3.v. *)
+From QSCProps Require Export C01_common C01_facts2 C01_facts3 C01_r1 C01_r2base C01_r2a C01_r2b C01_r2c C01_r2 C01_r3a C01_r3b C01_r3.
